@@ -111,12 +111,16 @@ func genSet64(r *Rng, maxBuckets int) *ISet {
 		nb := 3 + r.Intn(40)
 		s := NewISet()
 		base := []uint64{0, 1, 0x7FFFFFF0, 0xFFFFFF00, r.Range(0, max32-64)}[r.Intn(5)]
+		runFriendly := r.Chance(0.5) // every bucket is one short run (the smallest run-encoded bucket)
 		for k := uint64(0); k < uint64(nb); k++ {
 			if base+k > max32 {
 				break
 			}
 			lo := (base+k)<<32 | edgeVal32(r, NewISet())
 			hi := lo + []uint64{0, 0, 1, 2, 9}[r.Intn(5)]
+			if runFriendly {
+				hi = lo + r.Range(3, 30)
+			}
 			if hi>>32 != lo>>32 {
 				hi = lo
 			}
